@@ -218,7 +218,9 @@ func (e *Engine) loadTemplatesOnce() error {
 
 // loadTemplates does the actual loading, the caller must hold the lock
 func (e *Engine) loadTemplates(filtername string) error {
-	if !atomic.CompareAndSwapInt32(&e.templatesLoaded, 0, 1) && filtername == "" {
+	// only a load of all templates counts as "loaded": after a filtered load on an engine which has not
+	// loaded yet, the first render still has to load the rest
+	if filtername == "" && !atomic.CompareAndSwapInt32(&e.templatesLoaded, 0, 1) {
 		return errors.New("Can not preload all templates again")
 	}
 
